@@ -287,7 +287,7 @@ def _job_inner(fam, n, sel, quick, seed):
                 got_ab[f] = res[False]
         o = ora[(f, False)]
         for i in np.where(o["msd"] > 1e-12)[0]:
-            nontrivial.add((fam, n, sel, f, labels[i]))
+            nontrivial.add((fam, n, sel, f, fr[i].tobytes()))          # distinct by content, not by label
         # D1: rigid motion of the target: every frame is the same conformation moved rigidly
         j0 = 0
         g = got_ab[f]
@@ -555,7 +555,8 @@ def run(ctx):
         "rule": "every member of family x n_atoms x selection x rotation x translation x reference frame (x parallel x "
                 "precentered per call) is evaluated; an evaluation is one comparison of an observed value with the oracle or "
                 "with a stated relation; distinct_nontrivial counts distinct (family, n_atoms, selection, reference frame, "
-                "rotation, translation) whose float64 optimal RMSD exceeds 1e-6 nm (set-counted per job, jobs are disjoint)",
+                "rotation+translation variant, de-duplicated by the frame's float32 content) whose float64 optimal RMSD exceeds 1e-6 nm "
+                "(set-counted per job, jobs are disjoint)",
         "samples": samples[:6],
         "exhaustive": True,
         "axes": {"family": C.FAMILIES, "n_atoms": ns, "selection": C.SELECTIONS,
